@@ -112,8 +112,13 @@ def registry(model, R):
     R.check(len(calls) == 1 and src(calls[0].args[0]) == fs.params[1], 'PARAMS', fs, fs.node, 'fromstring parses the given source', 'frmat.loads(source, **kwargs)')
     for f, last in ((fs, 'args'), (ff, 'args')):
         last = [n for n in f.body if isinstance(n, ast.Return)]
-        R.expr(last[-1].value if last else None, f'{f.params[0]}(args.objects, args.properties, args.bools)', 'PARAMS', f,
-               f'{f.name}: context built from the parsed triple', at=last[-1] if last else f.node)
+        v = last[-1].value if last else None
+        if isinstance(v, ast.Call) and len(v.args) == 3 and all(isinstance(a, ast.Attribute) for a in v.args) \
+                and len({src(a.value) for a in v.args}) == 1 and name_is(v.func, f.params[0]):
+            R.decided([a.attr for a in v.args] == ['objects', 'properties', 'bools'], 'PARAMS', f, last[-1],
+                      f'{f.name}: context built from the parsed triple', 'cls(args.objects, args.properties, args.bools)', src(v))
+        else:
+            R.unknown('PARAMS', f, last[-1] if last else f.node, f'{f.name}: context built from the parsed triple', src(v)[:100])
     # defaults
     for key, param, want in (('contexts.Data.fromstring', 'frmat', 'table'), ('contexts.Data.fromfile', 'frmat', 'cxt'), ('contexts.ExportableMixin.tofile', 'frmat', 'cxt'),
                              ('contexts.FormattingMixin.tostring', 'frmat', 'table'), ('definitions.Triple.fromfile', 'frmat', 'cxt'),
